@@ -219,7 +219,9 @@ func TestC15_Renderings(t *testing.T) {
 	})
 }
 
-var c15Alphabet = []rune(" \t\n()[]{}.,_-=!\"`/~:|\\01925abzAZxéßЖ日٣½²Ⅳ＿·#$%&'*+;<>?@^")
+var c15Alphabet = []rune(" \t\n()[]{}.,_-=!\"`/~:|\\01925abzAZxéßЖ日٣½²Ⅳ＿·#$%&'*+;<>?@^" +
+	// runes at the edges of what a table of ASCII / Latin-1 / "space" / "valid" might cover
+	"\u007f\u0080\u0085\u00a0\u00ad\u00ff\u0100\u1680\u2000\u200a\u200b\u2028\u2029\u202f\u205f\u3000\ufeff\ufffd\ufffe\U00010000\U0010ffff")
 
 func TestC15_Strings(t *testing.T) {
 	r := rec(t, "C15", c15Rule)
